@@ -4,8 +4,10 @@ detects conflicting outputs.
 
 Property theorems only. Models: M-Proto `Path.lean` (lexical `path/filepath`) and `Plan.lean`
 (gen/generate.go `Generate`, internal/plugin `MultiServiceGenerator.Generate`, main.go root
-handling, the write loop). Three theorems are NEGATION witnesses for defects of the code as it
-is (D42, D33, D34); the model reproduces the current behaviour.
+handling, the write loop). Findings D42 (conflicts compared on raw strings) and D34 (a module
+called "...thrift" left the output directory) are repaired in the code and in the model: their
+former negation witnesses are regression theorems here, and the positive properties hold
+without side conditions. D33 (write loop not atomic) is not repaired: still a NEGATION witness.
 -/
 import ThriftVerif.Proto.PlanProofs3
 import ThriftVerif.Proto.PlanProofs4
@@ -53,39 +55,55 @@ example : writesOf (generatePlan "/r".toList "/o".toList [⟨"/r/a.thrift".toLis
 example : generatePlan "/r".toList "/o".toList [⟨"/r/a.thrift".toList, some [1]⟩]
     [some [("p/x.go".toList, [2])], none] [0, 1] = .error .pluginFailed := by decide
 
-/-! ### 2. conflicts between raw paths are detected -/
+/-! ### 2. conflicting outputs are detected — compared as the files that would be written -/
 
-/-- (a) Two plugins return the same path: an error under EVERY completion order (stated for
-every order that contains both indices; `conflict_detected` specialises to permutations). -/
+/-- (a) Two plugins return paths that are the same file (equal `normKey`, e.g. `x.go` and
+`./x.go`): an error under EVERY completion order that contains both plugins
+(`conflict_detected` specialises to permutations). -/
 theorem conflict_detected_plugins_mem (root out : Str) (mods plugs) (ord : List Nat)
-    (i j : Nat) (fi fj : Files) (p : Str)
+    (i j : Nat) (fi fj : Files) (x y : Str × Content)
     (hi : plugs[i]? = some (some fi)) (hj : plugs[j]? = some (some fj)) (hij : i ≠ j)
     (hio : i ∈ ord) (hjo : j ∈ ord)
-    (hpi : hasKey fi p = true) (hpj : hasKey fj p = true) :
+    (hx : x ∈ fi) (hy : y ∈ fj) (hxy : normKey x.1 = normKey y.1) :
     ∃ e, generatePlan root out mods plugs ord = .error e :=
-  ThriftVerif.Proto.conflict_detected_plugins_mem root out mods plugs ord i j fi fj p hi hj hij hio hjo hpi hpj
+  ThriftVerif.Proto.conflict_detected_plugins_mem root out mods plugs ord i j fi fj x y hi hj hij hio hjo hx hy hxy
 
-/-- The same raw path from two sources is an error: (a) two plugins, under every permutation
-of the completion order; (b) a plugin and the core generator; (c) two modules. -/
+/-- Two sources whose paths normalise to the same file are an error: (a) two plugins, under
+every permutation of the completion order; (a') one plugin with two such entries; (b) a plugin
+and the core generator; (c) two modules. -/
 theorem conflict_detected (root out : Str) (mods : List ModIn) (plugs : List (Option Files))
-    (ord : List Nat) (p : Str) :
-    (∀ (i j : Nat) (fi fj : Files), plugs[i]? = some (some fi) → plugs[j]? = some (some fj) → i ≠ j →
-      hasKey fi p = true → hasKey fj p = true → ord.Perm (List.range plugs.length) →
+    (ord : List Nat) :
+    (∀ (i j : Nat) (fi fj : Files) (x y : Str × Content),
+      plugs[i]? = some (some fi) → plugs[j]? = some (some fj) → i ≠ j →
+      x ∈ fi → y ∈ fj → normKey x.1 = normKey y.1 → ord.Perm (List.range plugs.length) →
       ∃ e, generatePlan root out mods plugs ord = .error e) ∧
-    (∀ (m : ModIn) (i : Nat) (fi : Files), m ∈ mods → modulePath root m.thriftPath = some p →
-      plugs[i]? = some (some fi) → hasKey fi p = true → ord.Perm (List.range plugs.length) →
+    (∀ (i : Nat) (fi : Files) (a b : Nat) (x y : Str × Content),
+      plugs[i]? = some (some fi) → fi[a]? = some x → fi[b]? = some y → a ≠ b →
+      normKey x.1 = normKey y.1 → ord.Perm (List.range plugs.length) →
       ∃ e, generatePlan root out mods plugs ord = .error e) ∧
-    (∀ (i j : Nat) (mi mj : ModIn), mods[i]? = some mi → mods[j]? = some mj → i ≠ j →
-      modulePath root mi.thriftPath = some p → modulePath root mj.thriftPath = some p →
+    (∀ (m : ModIn) (i : Nat) (fi : Files) (p : Str) (x : Str × Content), m ∈ mods →
+      modulePath root m.thriftPath = some p → plugs[i]? = some (some fi) → x ∈ fi →
+      normKey x.1 = normKey p → ord.Perm (List.range plugs.length) →
+      ∃ e, generatePlan root out mods plugs ord = .error e) ∧
+    (∀ (i j : Nat) (mi mj : ModIn) (pi pj : Str), mods[i]? = some mi → mods[j]? = some mj → i ≠ j →
+      modulePath root mi.thriftPath = some pi → modulePath root mj.thriftPath = some pj →
+      normKey pi = normKey pj →
       ∃ e, generatePlan root out mods plugs ord = .error e) :=
-  ⟨fun i j fi fj hi hj hij hpi hpj hord =>
-      conflict_detected_plugins root out mods plugs ord i j fi fj p hi hj hij hpi hpj hord,
-   fun m i fi hm hmp hi hpi hord =>
-      conflict_detected_core root out mods plugs ord m i fi p hm hmp hi hpi hord,
-   fun i j mi mj hi hj hij hpi hpj =>
-      conflict_detected_modules root out mods plugs ord i j mi mj p hi hj hij hpi hpj⟩
+  ⟨fun i j fi fj x y hi hj hij hx hy hxy hord =>
+      conflict_detected_plugins root out mods plugs ord i j fi fj x y hi hj hij hx hy hxy hord,
+   fun i fi a b x y hi hx hy hab hxy hord =>
+      conflict_detected_plugin_self root out mods plugs ord i fi a b x y hi hx hy hab hxy hord,
+   fun m i fi p x hm hmp hi hx hxp hord =>
+      conflict_detected_core root out mods plugs ord m i fi p x hm hmp hi hx hxp hord,
+   fun i j mi mj pi pj hi hj hij hpi hpj hpp =>
+      conflict_detected_modules root out mods plugs ord i j mi mj pi pj hi hj hij hpi hpj hpp⟩
 
-/-- Non-vacuity: each of the three conflicts, concretely (both orders for the plugins). -/
+/-- `normKey` identifies exactly the spellings of one file below the output directory. -/
+example : normKey "x.go".toList = "x.go".toList ∧ normKey "./x.go".toList = "x.go".toList ∧
+    normKey "/x.go".toList = "x.go".toList ∧ normKey "a/../x.go".toList = "x.go".toList ∧
+    normKey "a//b/".toList = "a/b".toList ∧ normKey [] = [] := by decide
+
+/-- Non-vacuity: the same raw string from two sources, concretely (both orders for the plugins). -/
 example :
     generatePlan "/r".toList "/o".toList [] [some [("x.go".toList, [1])], some [("x.go".toList, [2])]] [0, 1]
       = .error .pluginConflict ∧
@@ -96,25 +114,46 @@ example :
     generatePlan "/r".toList "/o".toList [⟨"/r/a.thrift".toList, some [1]⟩, ⟨"/r/a/.thrift".toList, some [2]⟩] [] []
       = .error .coreConflict := by decide
 
-/-! ### 3. … but only between RAW paths (finding D42) -/
+/-! ### 3. regression for finding D42 (repaired) -/
 
-/-- NEGATION witness, D42: conflicts are detected on the strings the plugins return, files are
-written at `filepath.Join(out, path)`. Two plugins returning `x.go` and `./x.go` are both
-accepted and the plan holds two different contents for the one file `/o/x.go`. -/
-theorem conflict_after_clean_undetected :
-    ∃ ws, generatePlan "/r".toList "/o".toList []
-        [some [("x.go".toList, [1])], some [("./x.go".toList, [2])]] [0, 1] = .ok ws ∧
-      ∃ a ∈ ws, ∃ b ∈ ws, a.1 = b.1 ∧ a.2 ≠ b.2 :=
-  ⟨_, conflict_after_clean_undetected_witness, _, List.mem_cons_self, _,
-    List.mem_cons_of_mem _ List.mem_cons_self, rfl, by decide⟩
+/-- REGRESSION, D42: two plugins returning `x.go` and `./x.go` used to be accepted, with two
+contents planned for `/o/x.go`. Now the plan is refused in either completion order. -/
+theorem conflict_after_clean_detected :
+    generatePlan "/r".toList "/o".toList []
+        [some [("x.go".toList, [1])], some [("./x.go".toList, [2])]] [0, 1]
+      = .error .pluginConflict ∧
+    generatePlan "/r".toList "/o".toList []
+        [some [("x.go".toList, [1])], some [("./x.go".toList, [2])]] [1, 0]
+      = .error .pluginConflict :=
+  conflict_after_clean_detected_witness
 
-/-- The same between the core generator and a plugin (`a/a.go` vs `a//a.go`). -/
-theorem conflict_after_clean_core :
-    ∃ ws, generatePlan "/r".toList "/o".toList [⟨"/r/a.thrift".toList, some [1]⟩]
-        [some [("a//a.go".toList, [2])]] [0] = .ok ws ∧
-      ∃ a ∈ ws, ∃ b ∈ ws, a.1 = b.1 ∧ a.2 ≠ b.2 :=
-  ⟨_, conflict_after_clean_undetected_core_witness, _, List.mem_cons_self, _,
-    List.mem_cons_of_mem _ List.mem_cons_self, rfl, by decide⟩
+/-- REGRESSION, D42: the same between the core generator and a plugin (`a/a.go` vs `a//a.go`),
+and for one plugin that returns one file under two spellings. -/
+theorem conflict_after_clean_detected_core :
+    generatePlan "/r".toList "/o".toList [⟨"/r/a.thrift".toList, some [1]⟩]
+        [some [("a//a.go".toList, [2])]] [0]
+      = .error .mergeConflict ∧
+    generatePlan "/r".toList "/o".toList []
+        [some [("x.go".toList, [1]), ("./x.go".toList, [2])]] [0]
+      = .error .pluginConflict :=
+  conflict_after_clean_detected_core_witness
+
+/-- The positive form: no file is planned twice — the write paths of a successful plan are
+pairwise different (absolute output directory; nothing else assumed). -/
+theorem plan_writes_distinct (root out : Str) (mods plugs ord) (ws : Files)
+    (h : generatePlan root out mods plugs ord = .ok ws) (ho : isAbs out = true) :
+    (ws.map (·.1)).Nodup :=
+  ThriftVerif.Proto.plan_writes_distinct root out mods plugs ord ws h ho
+
+theorem cli_writes_distinct (cwd : Str) (tr : Option Str) (out : Str) (mods plugs ord) (ws : Files)
+    (h : cliPlan cwd tr out mods plugs ord = .ok ws) (hcwd : isAbs cwd = true) :
+    (ws.map (·.1)).Nodup :=
+  ThriftVerif.Proto.cli_writes_distinct cwd tr out mods plugs ord ws h hcwd
+
+/-- What the proof rests on: different normalised keys are written to different files. -/
+theorem join_injective_on_normalised_keys (out p q : Str) (ho : isAbs out = true)
+    (h : join2 out (normKey p) = join2 out (normKey q)) : normKey p = normKey q :=
+  join2_normKey_inj out p q ho h
 
 /-! ### 4. lexical confinement -/
 
@@ -140,64 +179,91 @@ example : within (clean "/o".toList) (join2 "/o".toList "../x".toList) = false :
 
 /-! ### 5. the planned writes are confined -/
 
-/-- Every planned write is inside the output directory: plugin entries because of the ".."
-check, core entries provided no module path has a ".." component (see 6 and 7). -/
+/-- Every planned write is inside the (absolute) output directory. No side condition: the keys
+of the plan are normalised, and a normalised key has no ".." component. -/
 theorem plan_confined (root out : Str) (mods plugs ord) (ws : Files)
-    (h : generatePlan root out mods plugs ord = .ok ws) (ho : isAbs out = true)
-    (hcore : ∀ m ∈ mods, ∀ p, modulePath root m.thriftPath = some p →
-      ∀ c ∈ splitSlash p, c ≠ dotdot) :
-    ∀ w ∈ ws, within (clean out) w.1 = true :=
-  ThriftVerif.Proto.plan_confined root out mods plugs ord ws h ho hcore
-
-/-- Without any hypothesis on the modules: an entry is confined or it is a core entry. -/
-theorem plan_plugin_entries_confined (root out : Str) (mods plugs ord) (ws : Files)
     (h : generatePlan root out mods plugs ord = .ok ws) (ho : isAbs out = true) :
-    ∀ w ∈ ws, within (clean out) w.1 = true ∨
-      ∃ m ∈ mods, ∃ p, modulePath root m.thriftPath = some p ∧ w.1 = join2 out p :=
-  ThriftVerif.Proto.plan_plugin_entries_confined root out mods plugs ord ws h ho
+    ∀ w ∈ ws, within (clean out) w.1 = true :=
+  ThriftVerif.Proto.plan_confined root out mods plugs ord ws h ho
 
-/-- The command line makes the output directory absolute itself. -/
+/-- The command line makes the output directory absolute itself: an absolute working directory
+is all that is needed. -/
 theorem cli_confined (cwd : Str) (tr : Option Str) (out : Str) (mods plugs ord) (ws : Files)
-    (h : cliPlan cwd tr out mods plugs ord = .ok ws) (hcwd : isAbs cwd = true)
-    (hcore : ∀ root, cliRoot cwd tr mods = some root → ∀ m ∈ mods, ∀ p,
-      modulePath root m.thriftPath = some p → ∀ c ∈ splitSlash p, c ≠ dotdot) :
+    (h : cliPlan cwd tr out mods plugs ord = .ok ws) (hcwd : isAbs cwd = true) :
     ∀ w ∈ ws, within (clean (absPath cwd out)) w.1 = true :=
-  ThriftVerif.Proto.cli_confined cwd tr out mods plugs ord ws h hcwd hcore
+  ThriftVerif.Proto.cli_confined cwd tr out mods plugs ord ws h hcwd
+
+/-- Normalising the keys does not move any file. For an absolute Thrift root every planned
+write is at `Join(out, p)` for the RAW path `p` of a module or of a plugin answer, and that raw
+path has no ".." component (plugins: the `Contains("..")` check; core: `modulePath_no_dotdot`). -/
+theorem plan_writes_at_raw_join (root out : Str) (mods plugs ord) (ws : Files)
+    (h : generatePlan root out mods plugs ord = .ok ws) (ho : isAbs out = true)
+    (hr : isAbs root = true) :
+    ∀ w ∈ ws, ∃ p, w.1 = join2 out p ∧ (∀ c ∈ splitSlash p, c ≠ dotdot) ∧
+      ((∃ m ∈ mods, modulePath root m.thriftPath = some p) ∨
+       (∃ f, some f ∈ plugs ∧ ∃ x ∈ f, x.1 = p ∧ x.2 = w.2)) :=
+  ThriftVerif.Proto.plan_writes_at_raw_join root out mods plugs ord ws h ho hr
+
+/-- On the command line the root is absolute by itself (`--thrift-root` made absolute, or the
+common ancestor of absolute module paths). -/
+theorem cliRoot_isAbs (cwd : Str) (tr : Option Str) (mods : List ModIn) (root : Str)
+    (hcwd : isAbs cwd = true) (hm : mods ≠ []) (h : cliRoot cwd tr mods = some root) :
+    isAbs root = true :=
+  ThriftVerif.Proto.cliRoot_isAbs cwd tr mods root hcwd hm h
+
+theorem cli_writes_at_raw_join (cwd : Str) (tr : Option Str) (out : Str) (mods plugs ord) (ws : Files)
+    (h : cliPlan cwd tr out mods plugs ord = .ok ws) (hcwd : isAbs cwd = true) :
+    ∀ w ∈ ws, ∃ p, w.1 = join2 (absPath cwd out) p ∧ (∀ c ∈ splitSlash p, c ≠ dotdot) :=
+  ThriftVerif.Proto.cli_writes_at_raw_join cwd tr out mods plugs ord ws h hcwd
 
 /-- Non-vacuity: a plugin path with ".." is refused, even a harmless one. -/
 example : generatePlan "/r".toList "/o".toList [] [some [("a..b/x.go".toList, [2])]] [0]
     = .error .dotdot := by decide
 
-/-! ### 6. the core generator can leave the output directory (finding D34) -/
+/-! ### 6. regression for finding D34 (repaired) -/
 
-/-- NEGATION witness, D34 (confirmed on the binary: `thriftrw --out outer/out r/...thrift` writes
-`outer/...go`): for the file `/r/...thrift` the common ancestor is `/r`, the package path is
-"..", the Go file is planned at `../...go`, which is not within `/o`; the whole command line
-plans the write `/...go`. -/
-theorem core_path_escapes_dotdot_thrift :
+/-- REGRESSION, D34: for the file `/r/...thrift` the common ancestor is `/r` and the package
+path would be ".."; it used to be planned at `../...go`, outside the output directory. Now
+`modulePath` refuses and the command line fails before anything is planned. -/
+theorem dotdot_thrift_refused :
     findCommonAncestor ["/r/...thrift".toList] = some "/r".toList ∧
-    modulePath "/r".toList "/r/...thrift".toList = some "../...go".toList ∧
-    within (clean "/o".toList) (join2 "/o".toList "../...go".toList) = false ∧
+    rel "/r".toList (trimSuffix "/r/...thrift".toList thriftSuffix) = some dotdot ∧
+    modulePath "/r".toList "/r/...thrift".toList = none ∧
     cliPlan "/w".toList none "/o".toList [⟨"/r/...thrift".toList, some [7]⟩] [] []
-      = .ok [("/...go".toList, [7])] :=
-  core_path_escapes_dotdot_thrift_witness
+      = .error .moduleFailed :=
+  dotdot_thrift_refused_witness
 
-/-! ### 7. where core paths come from -/
+/-- The positive form: for an absolute Thrift root, a path that `modulePath` yields has no
+".." component — for EVERY file (relative, unclean, any name). A `Rel` result from an
+absolute base has its ".." elements only in front, and `escapesRoot` excludes a leading one. -/
+theorem modulePath_no_dotdot (root file p : Str) (ha : isAbs root = true)
+    (h : modulePath root file = some p) : ∀ c ∈ splitSlash p, c ≠ dotdot :=
+  modulePath_abs_no_dotdot root file p ha h
+
+/-- Non-vacuity; and two refusals under a relative root (the theorem is stated for absolute
+roots, which is what the command line always provides — `cliRoot_isAbs`). -/
+example : modulePath "/r".toList "/r/a/b.thrift".toList = some "a/b/b.go".toList ∧
+    modulePath "../r".toList "../s/x/a.thrift".toList = none ∧
+    modulePath "r".toList "../a.thrift".toList = none := by decide
+
+/-! ### 7. where core paths come from; no false refusals -/
 
 /-- (i) `generateModule`: the Go file of a Thrift file is `<pkg>/<base pkg>.go` with `pkg` the
-path of the file minus ".thrift" relative to the Thrift root. -/
+path of the file minus ".thrift" relative to the Thrift root, unless `pkg` leaves the root. -/
 theorem core_paths_from_root_def (root f p : Str) :
     modulePath root f = some p ↔
-      ∃ pkg, rel root (trimSuffix f thriftSuffix) = some pkg ∧ p = join2 pkg (base pkg ++ goSuffix) :=
+      ∃ pkg, rel root (trimSuffix f thriftSuffix) = some pkg ∧ escapesRoot pkg = false ∧
+        p = join2 pkg (base pkg ++ goSuffix) :=
   modulePath_iff root f p
 
-/-- (ii) a package path without ".." component gives a file path without one, which is
-therefore confined to every absolute output directory. -/
+/-- (ii) a package path without ".." component is not refused and gives a file path without
+one, which is therefore confined to every absolute output directory. -/
 theorem core_paths_from_root_confined (out pkg : Str) (ho : isAbs out = true)
     (h : ∀ c ∈ splitSlash pkg, c ≠ dotdot) :
+    escapesRoot pkg = false ∧
     (∀ c ∈ splitSlash (join2 pkg (base pkg ++ goSuffix)), c ≠ dotdot) ∧
     within (clean out) (join2 out (join2 pkg (base pkg ++ goSuffix))) = true :=
-  ⟨core_path_no_dotdot pkg h, core_path_confined out pkg ho h⟩
+  ⟨escapesRoot_false_of_no_dotdot pkg h, core_path_no_dotdot pkg h, core_path_confined out pkg ho h⟩
 
 /-- (iii-a) `Rel` for a cleaned absolute root and a target that extends it by `rest` (any
 string without ".." component — empty and "." components allowed): the remaining
@@ -209,8 +275,8 @@ theorem core_paths_from_root_rel (root rest : Str) (ha : isAbs root = true) (hc 
   rel_extends root rest ha hc hr
 
 /-- (iii-b) Hence a Thrift file `root/rest.thrift` — `rest` = directories below the root and
-the base name minus ".thrift", none of them ".." — is mapped to a path without ".."
-component, inside every absolute output directory. `rest = ".."` is exactly D34. -/
+the base name minus ".thrift", none of them ".." — is ACCEPTED and mapped to a path without
+".." component, inside every absolute output directory. -/
 theorem core_paths_from_root_extends (root rest : Str) (ha : isAbs root = true)
     (hc : clean root = root) (hr : ∀ c ∈ splitSlash rest, c ≠ dotdot) :
     ∃ p, modulePath root (root ++ '/' :: rest ++ thriftSuffix) = some p ∧
@@ -218,10 +284,9 @@ theorem core_paths_from_root_extends (root rest : Str) (ha : isAbs root = true)
       ∀ out, isAbs out = true → within (clean out) (join2 out p) = true :=
   core_path_of_extends root rest ha hc hr
 
-/-- (iii-c) From what main.go establishes with `--thrift-root`: a cleaned Thrift file that
-`verifyAncestry` accepts below a cleaned absolute root, that is not the root itself and whose
-last component minus ".thrift" is not "..", goes to a path without ".." component, inside
-every absolute output directory. -/
+/-- (iii-c) With `--thrift-root`: a cleaned Thrift file that `verifyAncestry` accepts below a
+cleaned absolute root, that is not the root itself and whose last component minus ".thrift"
+is not "..", is accepted by `modulePath`. -/
 theorem core_paths_from_root_ancestry (root f : Str) (ha : isAbs root = true) (hcr : clean root = root)
     (hcf : clean f = f) (hne : f ≠ root) (hanc : verifyAncestry root [f] = true)
     (hlast : NotDotDotName f) :
@@ -229,27 +294,33 @@ theorem core_paths_from_root_ancestry (root f : Str) (ha : isAbs root = true) (h
       ∀ out, isAbs out = true → within (clean out) (join2 out p) = true :=
   core_path_of_ancestry root f ha hcr hcf hne hanc hlast
 
-/-- (iii-d) … and without `--thrift-root`: the same for every module when the root is the
-`findCommonAncestor` of cleaned absolute module paths. -/
-theorem core_paths_common_ancestor (fs : List Str) (root f : Str)
-    (hfs : ∀ g ∈ fs, CleanAbs g) (h : findCommonAncestor fs = some root) (hf : f ∈ fs)
+/-- (iii-d) … and without `--thrift-root`: the same when the root is the `findCommonAncestor`
+of the module paths. -/
+theorem core_paths_from_root_common_ancestor (fs : List Str) (root f : Str)
+    (hfc : CleanAbs f) (h : findCommonAncestor fs = some root) (hf : f ∈ fs)
     (hne : f ≠ root) (hlast : NotDotDotName f) :
     ∃ p, modulePath root f = some p ∧ (∀ c ∈ splitSlash p, c ≠ dotdot) ∧
       ∀ out, isAbs out = true → within (clean out) (join2 out p) = true :=
-  core_path_of_common_ancestor fs root f hfs h hf hne hlast
+  core_path_of_common_ancestor fs root f hfc h hf hne hlast
 
-/-- End to end (5 + 7): cleaned absolute module paths, none of them the Thrift root itself,
-none called "...thrift" — then EVERY planned write of the command line, core and plugin, with
-or without `--thrift-root`, under any completion order, is inside the output directory.
-D34 shows that the base-name hypothesis cannot be dropped. -/
-theorem cli_confined_clean_mods (cwd : Str) (tr : Option Str) (out : Str) (mods plugs ord) (ws : Files)
-    (h : cliPlan cwd tr out mods plugs ord = .ok ws) (hcwd : isAbs cwd = true)
+/-- No false refusals on the command line: cleaned absolute module paths, none of them the
+Thrift root itself, none called "...thrift" — every module gets its path, with or without
+`--thrift-root`. (Both exclusions are genuine: see `dotdot_thrift_refused` and the example below.) -/
+theorem cli_modules_accepted (cwd : Str) (tr : Option Str) (mods : List ModIn)
+    (hcwd : isAbs cwd = true)
     (hmods : ∀ m ∈ mods, CleanAbs m.thriftPath ∧ NotDotDotName m.thriftPath)
     (hroot : ∀ m ∈ mods, cliRoot cwd tr mods ≠ some m.thriftPath) :
-    ∀ w ∈ ws, within (clean (absPath cwd out)) w.1 = true :=
-  ThriftVerif.Proto.cli_confined_clean_mods cwd tr out mods plugs ord ws h hcwd hmods hroot
+    ∀ root, cliRoot cwd tr mods = some root → ∀ m ∈ mods,
+      (modulePath root m.thriftPath).isSome = true :=
+  ThriftVerif.Proto.cli_modules_accepted cwd tr mods hcwd hmods hroot
 
-/-- Non-vacuity of the end-to-end hypotheses (two modules, no `--thrift-root`, one plugin). -/
+/-- Non-vacuity of (iii): root `/r`, file `/r/a//b/./c.thrift`. -/
+example : isAbs "/r".toList = true ∧ clean "/r".toList = "/r".toList ∧
+    (∀ c ∈ splitSlash "a//b/./c".toList, c ≠ dotdot) ∧
+    modulePath "/r".toList ("/r".toList ++ '/' :: "a//b/./c".toList ++ thriftSuffix)
+      = some "a/b/c/c.go".toList := by decide
+
+/-- Non-vacuity of the command-line hypotheses (two modules, no `--thrift-root`, one plugin). -/
 example :
     (∀ m ∈ [(⟨"/r/a/x.thrift".toList, some [1]⟩ : ModIn), ⟨"/r/b/y.thrift".toList, some [2]⟩],
       (isAbs m.thriftPath = true ∧ clean m.thriftPath = m.thriftPath) ∧
@@ -262,15 +333,10 @@ example :
       = .ok [("/w/o/a/x/x.go".toList, [1]), ("/w/o/b/y/y.go".toList, [2]), ("/w/o/p/z.go".toList, [3])] := by
   decide
 
-/-- The remaining hypothesis `file ≠ root` is not idle either (a "root" that is a `.thrift` path): -/
+/-- A "root" that is itself the `.thrift` file: accepted by `verifyAncestry`, its package path
+is `../r`, which the repaired `modulePath` refuses (it used to yield `../r/r.go`). -/
 example : verifyAncestry "/r.thrift".toList ["/r.thrift".toList] = true ∧
-    modulePath "/r.thrift".toList "/r.thrift".toList = some "../r/r.go".toList := by decide
-
-/-- Non-vacuity of (iii): root `/r`, file `/r/a//b/./c.thrift`. -/
-example : isAbs "/r".toList = true ∧ clean "/r".toList = "/r".toList ∧
-    (∀ c ∈ splitSlash "a//b/./c".toList, c ≠ dotdot) ∧
-    modulePath "/r".toList ("/r".toList ++ '/' :: "a//b/./c".toList ++ thriftSuffix)
-      = some "a/b/c/c.go".toList := by decide
+    modulePath "/r.thrift".toList "/r.thrift".toList = none := by decide
 
 /-! ### 8. ancestry -/
 
@@ -302,10 +368,12 @@ theorem findCommonAncestor_example :
     findCommonAncestor ["/a/x.thrift".toList, "b/y.thrift".toList] = none :=
   findCommonAncestor_examples
 
-/-- With an explicit root the D34 file is refused (its relative path "...thrift" starts with ".."). -/
-theorem dotdot_thrift_explicit_root :
+/-- With an explicit root the "...thrift" file was and is refused (its relative path starts
+with ".."); a root that is itself a `.thrift` path is refused by the repaired `modulePath`. -/
+theorem dotdot_thrift_rejected_with_explicit_root :
     cliPlan "/w".toList (some "/r".toList) "/o".toList [⟨"/r/...thrift".toList, some [7]⟩] [] []
-      = .error .moduleFailed :=
+      = .error .moduleFailed ∧
+    modulePath "/r.thrift".toList "/r.thrift".toList = none :=
   ThriftVerif.Proto.dotdot_thrift_rejected_with_explicit_root
 
 /-! ### 9. the write loop is not atomic (finding D33) -/
@@ -332,7 +400,7 @@ theorem write_loop_complete (ws : Files)
   writeLoop_complete_prefixFree ws hclean hpw
 
 /-- … in particular for a successful plan (its paths are cleaned and absolute by construction).
-D42 violates `a ≠ b`, D33 violates prefix-freeness. -/
+`a ≠ b` is `plan_writes_distinct`; D33 violates prefix-freeness. -/
 theorem plan_write_loop_complete (root out : Str) (mods plugs ord) (ws : Files)
     (h : generatePlan root out mods plugs ord = .ok ws) (ho : isAbs out = true)
     (hroot : ∀ w ∈ ws, w.1 ≠ ['/'])
